@@ -363,12 +363,12 @@ Print Assumptions C15_layout_agrees.
 
 (* the debug entry types and data directory indices the model dispatches on are the constants of src/image.rs *)
 From PV.gen Require Consts.
-From PV.Proofs Require ConstsAgree.
+From PV.Proofs Require ConstsDirs.
 Theorem C15_constants_match_source :
   Consts.K_IMAGE_DEBUG_TYPE_CODEVIEW = 2 /\ Consts.K_IMAGE_DEBUG_TYPE_MISC = 4 /\ Consts.K_IMAGE_DEBUG_TYPE_POGO = 13 /\
   Consts.K_IMAGE_DIRECTORY_ENTRY_EXCEPTION = 3 /\ Consts.K_IMAGE_DIRECTORY_ENTRY_SECURITY = 4 /\ Consts.K_IMAGE_DIRECTORY_ENTRY_DEBUG = 6 /\
   Consts.K_IMAGE_DIRECTORY_ENTRY_TLS = 9 /\ Consts.K_IMAGE_DIRECTORY_ENTRY_LOAD_CONFIG = 10.
-Proof. exact ConstsAgree.dirs_consts. Qed.
+Proof. exact ConstsDirs.dirs_consts. Qed.
 Print Assumptions C15_constants_match_source.
 
 Example C15_nonvacuous :
